@@ -296,12 +296,17 @@ def scenarios(quick):
             scn.update({'max_adv': 1, 'max_silent': 1})
         out.append(scn)
 
+    # (lists are given in both orders of the state model and such that the
+    #  alphabetical and the model order of the names differ)
     t_states = [None, rps.DONE, [rps.DONE], [rps.AGENT_EXECUTING],
                 [rps.AGENT_EXECUTING, rps.DONE], rps.FAILED,
-                [rps.CANCELED, rps.FAILED], rps.TMGR_SCHEDULING]
+                [rps.CANCELED, rps.FAILED], rps.TMGR_SCHEDULING,
+                [rps.TMGR_SCHEDULING, rps.AGENT_EXECUTING],
+                [rps.FAILED, rps.TMGR_STAGING_OUTPUT]]
     p_states = [None, rps.DONE, [rps.PMGR_ACTIVE], rps.PMGR_ACTIVE,
                 [rps.PMGR_ACTIVE, rps.DONE], rps.FAILED,
-                [rps.CANCELED, rps.FAILED]]
+                [rps.CANCELED, rps.FAILED],
+                [rps.PMGR_LAUNCHING, rps.PMGR_ACTIVE]]
     timeouts = [None, 0.35, 1.0]
 
     tt = trajectories(T_CHAIN)
